@@ -195,9 +195,17 @@ func runC19(k *kernel.K) {
 	if large {
 		nmsg = w.Range(2, 4)
 	}
+	sharedPrefix := nmsg >= 2 && w.Chance(1, 10)
+	if sharedPrefix {
+		k.Probe("message_ids_share_first_8_bytes")
+	}
 	var msgs []*c19Msg
 	for i := 0; i < nmsg; i++ {
 		m := &c19Msg{idx: i, id: fmt.Sprintf("%02dab%04x%08x", i, w.Draw(65536), w.Draw(1<<24)), isReq: w.Chance(1, 2)}
+		if sharedPrefix {
+			// distinct IDs that agree in their first eight characters (a caller's own numbering)
+			m.id = fmt.Sprintf("5f3a9c01%08x", i+1)
+		}
 		size := []int{0, 1, 17, 1000, 4096, 70000, 1 << 20}[w.Pick([]int{3, 2, 3, 4, 2, 2, 1})]
 		if large {
 			size = []int{70000, 200000, 1 << 20}[w.Draw(3)]
@@ -371,6 +379,26 @@ func runC19(k *kernel.K) {
 			k.Fail("C19.reader_agrees", nil, "marbl.Reader and the independent parser disagree on frame %d: %v vs %+v", i, f, want)
 			break
 		}
+	}
+	if sharedPrefix {
+		// "per message ID and type": frames of distinct (ID, type) pairs must be distinguishable
+		fp, mp := map[string]bool{}, map[string]bool{}
+		for _, f := range frames {
+			fp[fmt.Sprintf("%s/%d", f.ID, f.MT)] = true
+		}
+		var ids []string
+		for _, m := range msgs {
+			mt := 2
+			if m.isReq {
+				mt = 1
+			}
+			mp[fmt.Sprintf("%s/%d", m.id, mt)] = true
+			ids = append(ids, m.id)
+		}
+		if len(fp) < len(mp) && !closedEarly {
+			k.Fail("C19.per_message_id", map[string]string{"ids": "share_first_8_bytes"}, "%d messages with the distinct IDs %v (%d distinct ID/type pairs) were logged; the frames carry only %d distinct ID/type pairs %v, so the frames of different messages cannot be told apart", len(msgs), ids, len(mp), len(fp), sortedKeys(fp))
+		}
+		return
 	}
 	for _, m := range msgs {
 		desc := fmt.Sprintf("message %d (id %s, request=%v, body %dB, underlying reads %v, consumer reads %v)", m.idx, m.id[:8], m.isReq, len(m.under.data), clip(m.under.log), clip(m.log))
